@@ -71,6 +71,11 @@ CLAIMED = {
             "Generated-input search plus systematic impulse sweeps: both the generic and the CPU-selected entry point (exposed by a cfg(jxl_oxide_verif) re-export) must match the double-precision definition within per-family norm-relative tolerances frozen at >= 4x the worst observed error, must agree with each other within half of that, and must not write outside the processed varblocks.",
             "Trusted: jxlref::models::idct (independent f64 model, AFV basis transcribed from the format's table and checked for orthonormality). Only the x86-64 SSE2/SSE4.1 paths exist on this host. Coefficient transposition for tall blocks happens before this entry point and is not covered here.",
             "DESIGN.md §4 C16"),
+    "C17": ("exploration",
+            "round-trip PBT: independent baseline-JPEG writer + lossless JPEG->JPEG XL transcoder (VarDCT reference writer, jbrd payload writer) -> reconstruct_jpeg; byte equality with the generated JPEG; status/attempt consistency at every feed step; hostile jbrd boxes (generated bit flips and field-targeted edits) must give errors",
+            "Generated-input search over JPEG structures (sampling factors, quantisation/Huffman tables incl. generated ones, scan scripts, restart intervals, APPn/COM/ICC/Exif/XMP, padding patterns, tails) and coefficient contents, over container layouts and arrival orders; the reconstructed bytes must equal the original file, 'Available' must imply that reconstruct_jpeg does not fail for missing data, and hostile reconstruction data must not panic.",
+            "Trusted: jxlref::jpeg (JPEG writer from ITU-T T.81, self-checked by an independent reader on every case) and the jbrd payload layout as implemented by libjxl (COM/APP data carry their marker byte; padding bits in stream order). Progressive JPEG, 4-component and RGB JPEGs are not generated (stated in the evidence).",
+            "DESIGN.md §4 C17"),
     "C18": ("exploration",
             "round-trip PBT: independent ICC-stream *encoder* with generated command segmentation (header prediction, tag shortcuts, raw/shuffle/predicted runs) over generated profiles -> read_icc/decode_icc and JxlImage::original_icc byte equality; 18 constructed negative cases",
             "Generated-input search over profiles (structured and noise, 0..300 KiB) and over encodings of each profile; the decoder must return the profile byte for byte and stop at the written bit; inconsistent encodings (by construction, confirmed by a reference interpreter) must be rejected.",
